@@ -5,6 +5,28 @@ TB = ("Trusted: Coq 8.16.1 kernel; the four standard-library axioms that Flocq's
       "differential (sampled / finite sweeps), not proved. ")
 
 CLAIMED = {
+    "C04": {
+        "text": "Every slice, index, expect() and unreachable!() of the modelled loading code is a Panic value and both "
+                "recursive layers run on fuel whose exhaustion is a Panic, so totality is a theorem: tokenise_total, "
+                "lex_fuel_irrelevant, lex_step_progress (the loop cannot spin), parse_total, into_identifier_total (fix D5), "
+                "parse_key_total, parse_identifier_total and load_rule_total hold for ALL strings, token lists and YAML values of "
+                "any depth; the malformed stream (all strings over a 19-character alphabet up to length 2-3, random longer "
+                "ones, random YAML shapes in every position, nesting 64, raw non-YAML text) is run against the crate under "
+                "catch_unwind and against the model.",
+        "note": TB + "Not modelled: serde_yaml's text->Value layer and serde's derived field visitor for non-string top-level keys (crate-only no-panic runs cover them); native stack exhaustion is out of scope (depth <= 64).",
+        "technique": "Coq proof (fuel sufficiency by induction, nested induction over YAML values) + differential malformed-input stream",
+    },
+    "C05": {
+        "text": "The documented grammar is a relation between token lists and trees (Model/Grammar.v); pratt_complete proves that "
+                "the Pratt parser, with the binding powers REGENERATED from src/tokeniser.rs on every run, returns exactly the "
+                "grammar's tree for every derivable condition of any size (not binds one operand, cmp > or > and, left "
+                "associativity, parentheses), parens_redundant / parens_operand the parenthesis laws, space_doubling / "
+                "leading_space the whitespace laws, keyword_prefix_words that words beginning with keyword letters are "
+                "identifiers (from the regenerated keyword table); all conditions up to 3-4 operators in three renderings and "
+                "all 3^k assignments are compared with an independent recursive-descent reference on the crate.",
+        "note": TB + "Binding powers and keyword table come from tools/gen_tables.py (translator); if the source no longer has the expected shape the translator says so and only the correspondence decides.",
+        "technique": "Coq proof (mutual induction over the grammar, precedence-climbing invariant) re-checked against regenerated tables + exhaustive differential sweep",
+    },
     "C06": {
         "text": "Truth tables of or/and/not/all()/of() proved in Coq for operand lists of every length "
                 "(or_group_spec, and_group_spec, of_pos_spec, of_zero_spec, binary_eq_group, forms_agree_*), about the "
